@@ -63,3 +63,43 @@ claim("C08", "SSA argument tables + exhaustive order-abstraction evaluation of t
       "failover entry with SeqNo<=R (0 if none) for every ordering of 0..4 entries and R; SetVbUUID(failOverLogs[0].VbUUID)/SetCatchup(failed) under err==nil "
       "only; catch-up filter skip <=> need && seq<=F, need' = need && seq<F, never consulted for control events. NOT decided: the server's R and log content.",
       "DESIGN.md §3 C08")
+
+claim("C09", "SSA shape rules (induction variables, sub-slice sweep), origin tables, effect/purity summary",
+      "PERIPHERY ONLY. Decides the structural half of the partition property: the vBucket list is the ascending identity sequence; every chunk ChunkSlice "
+      "returns is a sub-slice of its own parameter cut in one ascending sweep (start(i+1)=end(i), start(0)=0) - hence contiguous, ascending and without gaps or "
+      "overlaps between consecutive chunks; a member takes exactly ChunkSlice(all, TotalMembers)[MemberNumber-1] from one GetInfo() value and returns that slice "
+      "itself (no cache/copy); ChunkSlice and Get are pure. NOT decided and not claimed: non-emptiness, exact cover of 0..N-1 and balance within one - arithmetic "
+      "facts about ((n-1)/c)+1 and c-(m*c-n) that need symbolic algebra or enumeration (other technique families); a change that only alters those formulas is "
+      "not detected.", "DESIGN.md §3 C09, §5")
+
+claim("C10", "dominance rules, reflection-contract typing, SSA formula tables, exhaustive order-abstraction evaluation of IsChanged",
+      "PERIPHERY ONLY. Decides necessary structural conditions of consistent numbering: every membership publication is dominated by IsChanged(current)=true on "
+      "the published value and IsChanged <=> nil || a number differs (exhaustive); one topic constant, publishers pass one *membership.Model, subscribers are "
+      "func(*membership.Model); numbering formulas of the four mechanisms (self index+1/len with panic when absent; leader 1, follower at index i of the "
+      "join-ordered list gets i+2, total len+1; config; ordinal+1) incl. RPC payload tables; both comparators ascending in join time; the Couchbase membership "
+      "records the acted-on view only after the change decision and restarts the round on a CAS conflict. NOT decided: agreement/convergence between members, "
+      "bounded admission/removal, distinctness under concurrent joins (distributed, timed).", "DESIGN.md §3 C10, §5")
+
+claim("C11", "path-language rules over SSA CFG with inlining (callback bracketing, lock hand-off), dominance rules, timer idiom rule",
+      "PERIPHERY ONLY. Decides necessary structural conditions of rebalance convergence: callbacks bracketed on every path of Rebalance (Close inlined) and of "
+      "the reopen function (Open inlined); the debounce arm only touches the timer and Resets it only after Stop()=true, otherwise re-arms Rebalance itself; "
+      "balancing<-true dominates Close(false), the stop channel is closed only under !balancing, Open returns before balancing<-false; after Lock every path arms "
+      "exactly one AfterFunc(reopen) which defers Unlock first; Open always asks Get and Load afresh; delay const 0 iff dynamic; a repeated membership is not "
+      "announced (IsChanged exact); the bus listener forwards every notification. NOT decided: 'closed once/reopened exactly once per burst on the latest "
+      "membership' and timing relative to the delay.", "DESIGN.md §3 C11, §5")
+
+claim("C12", "exhaustive order-abstraction evaluation of the end listener / reopen loop / End handler + who-may-write rules",
+      "Decides classification, counting and the stop token: the end listener evaluated over closeWithCancel x err-nil x 7 error classes x counter result x "
+      "finishedWithClose starts a reopen for exactly the five transient causes (&& !closeWithCancel && err!=nil), otherwise decrements once and sends the token "
+      "iff the counter hit 0 && !finishedWithClose; activeStreams written only by Swap(len) in Open and Add(-1) there; Open resets both finished flags first; "
+      "openStream uses offsets[vbID]/observers[vbID] read at call time; reopenStream returns at the first success and panics after exactly five failures; End "
+      "forwards iff !endClosed; every handler-built offset carries the end bound sampled at open. NOT decided: server-side completeness before the end, races "
+      "between a reopen goroutine and a concurrent Close.", "DESIGN.md §3 C12")
+
+claim("C13", "path-order rules, goroutine/stop inventory over the VTA call graph, flag-before-go rule, nil-guard rule on the closed-state field",
+      "Decides structural conditions of clean shutdown: teardown order in the close path (HealthCheck.Stop < Client.Close; Unsubscribe < Stream.Close < DcpClose "
+      "< Client.Close; final save before close under a blocking lock); in Stream.Close delivery switch < closeAllStreams < end switch < observers=nil with "
+      "schedule and mitigation stopped; each of the 9 background loops exits on a flag/channel/context/listener that the close path reaches; running flags are "
+      "raised before `go` (defect F3 repaired in /repo); the listener is called iff !closed after the gate; every lifecycle use of observers is nil-guarded - "
+      "violated in Stream.Close itself (known finding K2, listed by obligation key). NOT decided: bounded return time; no event after Close returned (gocbcore).",
+      "DESIGN.md §3 C13, §4")
